@@ -53,6 +53,13 @@ int compint_to_size(zckCtx *zck, size_t *val, const char *compint,
     int count = 0;
     bool done = false;
     while(true) {
+        /* Make sure we don't read past the end of the buffer */
+        if(*length >= max_length) {
+            set_fatal_error(zck, "Read past end of header");
+            *length -= count;
+            *val = 0;
+            return false;
+        }
         size_t c = i[0];
         if(c >= 128) {
             c -= 128;
